@@ -324,6 +324,16 @@ impl Sub for History {
                 ],
             });
         }
+        // more than 65536 striped rows (a 16-bit row counter), every striping backend, then a shorter re-use
+        let l = 32 * 65536 + 37;
+        for bk in [SBk::Avx2, SBk::Generic, SBk::Dispatch(Arm::Sse2), SBk::ToStriped(Arm::Avx2)] {
+            out.push(Case {
+                abc: Abc::Dna,
+                cols: Cols::U32,
+                first: (SeqSpec::Seeded { len: l, seed: 65536, wild_pct: 1 }, bk),
+                ops: vec![Op::ConfigureWrap(9), Op::StripeInto(SeqSpec::Seeded { len: 32 * 65535 + 1, seed: 7, wild_pct: 1 }, SBk::Avx2)],
+            });
+        }
         out
     }
     fn check(&self, case: &Case, _cx: &Cx) -> Verdict {
